@@ -3,7 +3,7 @@ import os
 from props import C03
 from props.conc import *
 
-THEOREMS = ["C14_exclusive_hand_over", "C14_token_moves", "C14_workers_touch_only_their_buffer"]
+THEOREMS = ["C14_exclusive_hand_over", "C14_token_moves", "C14_workers_touch_only_their_buffer", "C14_protocol_text_is_the_modelled_one"]
 
 
 def run(ck):
